@@ -325,6 +325,46 @@ theorem whole_take (W : List UInt8) (D : ByteArray) (h : D.data.toList = W) : D.
 
 variable {cap : Nat} {inp : ByteArray} {off : Nat} {B : RState × Status}
 
+theorem startChunk_eof_pos (r : R2) (h : (startChunk r).2 = .eof) : r.pos ≤ (startChunk r).1.srcPos := by
+  rw [startChunk_eq] at h ⊢
+  by_cases c1 : r.pos ≥ r.inp.size
+  · rw [if_pos c1] at h; cases h
+  rw [if_neg c1] at h ⊢
+  cases hk : Spec.ctrl (Lzma2.get r.inp r.pos) with
+  | none => rw [hk] at h; cases h
+  | some kind =>
+    rw [hk] at h
+    simp only at h ⊢
+    by_cases c2 : r.pos + hlenOf kind > r.inp.size
+    · rw [if_pos c2] at h; cases h
+    rw [if_neg c2] at h ⊢
+    cases hhp : hpropsOf r.inp r.pos kind with
+    | none => rw [hhp] at h; cases h
+    | some hp =>
+      rw [hhp] at h
+      simp only at h ⊢
+      cases hcn : Model.chunkNext r.cstate (Model.ctypeOf kind) with
+      | none => rw [hcn] at h; cases h
+      | some cs' =>
+        rw [hcn] at h
+        simp only at h ⊢
+        unfold startBody at h ⊢
+        simp only at h ⊢
+        by_cases cstop : cs' = Gen.lzma_stateStop
+        · rw [if_pos cstop]
+          simp only [R2.srcPos]
+          rw [if_neg (by simp)]
+          omega
+        · rw [if_neg cstop] at h
+          exfalso
+          by_cases cunc : kind = .ud ∨ kind = .u
+          · rw [if_pos cunc] at h; cases h
+          · rw [if_neg cunc] at h
+            split at h
+            · simp only at h
+              split_ifs at h
+            · cases h
+
 /-- a header that both readers reject: what it means for the batch run -/
 theorem fin_done {r r' : R2} {D : ByteArray} {h : Hist} {e : Err}
     (hD : D.data.toList = h.out.data.toList.drop off)
@@ -815,7 +855,8 @@ theorem ufill_spec {r : R2} {D : ByteArray} (hc : CUnc cap inp off B r D) :
 def ChunkPost (cap : Nat) (inp : ByteArray) (off : Nat) (B : RState × Status) (r : R2) (len : Nat) (D0 : ByteArray)
     (x : R2 × ByteArray × RStat) : Prop :=
   x.2.1.size ≤ len ∧ x.1.err = r.err ∧
-  (x.2.2 = .ok → x.2.1.size = len ∧ (CLz cap inp off B x.1 (D0 ++ x.2.1) ∨ CUnc cap inp off B x.1 (D0 ++ x.2.1))) ∧
+  (x.2.2 = .ok → x.2.1.size = len ∧ (CLz cap inp off B x.1 (D0 ++ x.2.1) ∨ CUnc cap inp off B x.1 (D0 ++ x.2.1)) ∧
+    r.srcPos ≤ x.1.srcPos) ∧
   (x.2.2 = .eof →
     Bnd cap inp off B (if x.1.cur = .lz then { x.1 with pos := x.1.segEnd - x.1.l.rd.inp.length } else x.1)
       (D0 ++ x.2.1) ∧
@@ -978,9 +1019,11 @@ theorem lzRead_spec (hcap : 274 ≤ cap) {r : R2} {D0 : ByteArray} (hc : CLz cap
     simp only at hst
     subst hst
     obtain ⟨a1, a2⟩ := q4
-    refine ⟨q2 rfl, Or.inl ⟨rfl, hinp, hdec, p, usize, startB, R, a2, fun hK => ?_⟩⟩
-    obtain ⟨rb, seq', kind, csize, hp, body, n, k1, k2, k3, k4, k5, k6, k7, k8⟩ := hKB hK
-    exact ⟨rb, seq', kind, csize, hp, body, n, k1, k2, k3, k4, Nat.le_trans a1 k5, k6, k7, k8⟩
+    refine ⟨q2 rfl, Or.inl ⟨rfl, hinp, hdec, p, usize, startB, R, a2, fun hK => ?_⟩, ?_⟩
+    · obtain ⟨rb, seq', kind, csize, hp, body, n, k1, k2, k3, k4, k5, k6, k7, k8⟩ := hKB hK
+      exact ⟨rb, seq', kind, csize, hp, body, n, k1, k2, k3, k4, Nat.le_trans a1 k5, k6, k7, k8⟩
+    · simp only [R2.srcPos, hcur, if_true]
+      omega
   · intro hst
     simp only at hst
     subst hst
@@ -1057,15 +1100,15 @@ theorem chunkRead_spec (hcap : 274 ≤ cap) {r : R2} {D0 : ByteArray} (hc : C2 c
     rw [hcur]
     simp only
     obtain ⟨a1, a2, a3, a4, a5, a6, a7⟩ := this
-    refine ⟨a1, a2, fun h => ⟨(a5 h).1, Or.inr (a5 h).2⟩, fun h => ?_, a7⟩
+    refine ⟨a1, a2, fun h => ⟨(a5 h).1, Or.inr (a5 h).2, by simp only [R2.srcPos, hcur, a3]; exact a4⟩, fun h => ?_, a7⟩
     rw [if_neg (by rw [a3]; simp), if_neg (by rw [a3]; simp)]
     refine ⟨a6 h, ?_⟩
     simp only [R2.srcPos, hcur]
     exact a4
 
-def R2Post (cap : Nat) (inp : ByteArray) (off : Nat) (B : RState × Status) (len : Nat) (D0 : ByteArray)
+def R2Post (cap : Nat) (inp : ByteArray) (off : Nat) (B : RState × Status) (p0 len : Nat) (D0 : ByteArray)
     (x : R2 × ByteArray × RStat) : Prop :=
-  x.2.1.size ≤ len ∧
+  x.2.1.size ≤ len ∧ ((x.2.2 = .ok ∨ x.2.2 = .eof) → p0 ≤ x.1.srcPos) ∧
   (x.2.2 = .ok → x.2.1.size = len ∧ C2 cap inp off B x.1 (D0 ++ x.2.1) ∧ x.1.err = none) ∧
   (x.2.2 ≠ .ok → FinSt off B (D0 ++ x.2.1) x.1 x.2.2 ∧ FinPre off B (D0 ++ x.2.1) ∧ x.1.err = some x.2.2)
 
@@ -1076,20 +1119,21 @@ theorem finSt_err_irrel {D : ByteArray} {r r' : R2} {st : RStat} (h : FinSt off 
   | eof => intro hK; rw [hs]; exact h hK
   | err e => exact h
 
-theorem readLoop2_spec (hcap : 274 ≤ cap) (len : Nat) (D0 : ByteArray) : ∀ (fuel : Nat) (r : R2) (acc : ByteArray),
+theorem readLoop2_spec (hcap : 274 ≤ cap) (p0 len : Nat) (D0 : ByteArray) :
+    ∀ (fuel : Nat) (r : R2) (acc : ByteArray),
     C2 cap inp off B r (D0 ++ acc) → r.err = none → acc.size ≤ len →
-    (if acc.size < len then (inp.size - r.srcPos) + 2 else 1) ≤ fuel →
-    R2Post cap inp off B len D0 (readLoop len fuel r acc) := by
+    (if acc.size < len then (inp.size - r.srcPos) + 2 else 1) ≤ fuel → p0 ≤ r.srcPos →
+    R2Post cap inp off B p0 len D0 (readLoop len fuel r acc) := by
   intro fuel
   induction fuel with
   | zero => intro r acc _ _ _ hn; exfalso; split_ifs at hn <;> omega
   | succ fuel ih =>
-    intro r acc hc he hle hn
+    intro r acc hc he hle hn hp0
     rw [readLoop]
     by_cases hlt : acc.size < len
     swap
     · rw [if_neg hlt]
-      exact ⟨hle, fun _ => ⟨by simp only; omega, hc, he⟩, (fun h => absurd rfl h)⟩
+      exact ⟨hle, fun _ => hp0, fun _ => ⟨by simp only; omega, hc, he⟩, (fun h => absurd rfl h)⟩
     rw [if_pos hlt]
     rw [if_pos hlt] at hn
     have hcp := chunkRead_spec hcap hc (len - acc.size) (by omega)
@@ -1102,10 +1146,10 @@ theorem readLoop2_spec (hcap : 274 ≤ cap) (len : Nat) (D0 : ByteArray) : ∀ (
     cases st with
     | ok =>
       simp only
-      obtain ⟨o1, o2⟩ := p3 rfl
+      obtain ⟨o1, o2, o3⟩ := p3 rfl
       rw [if_neg (by omega)]
       rw [hasm] at o2
-      exact ih r1 (acc ++ chunk) o2 (by rw [p2]; exact he) (by omega) (by rw [if_neg (by omega)]; omega)
+      exact ih r1 (acc ++ chunk) o2 (by rw [p2]; exact he) (by omega) (by rw [if_neg (by omega)]; omega) (by omega)
     | eof =>
       simp only
       obtain ⟨e1, e2⟩ := p4 rfl
@@ -1129,20 +1173,25 @@ theorem readLoop2_spec (hcap : 274 ≤ cap) (len : Nat) (D0 : ByteArray) : ∀ (
       | ok =>
         simp only
         obtain ⟨t1, t2, t3, t4⟩ := s1 rfl
-        exact ih r3 (acc ++ chunk) t1 (by rw [t2]; exact hr2e) (by omega) (by split_ifs <;> omega)
+        exact ih r3 (acc ++ chunk) t1 (by rw [t2]; exact hr2e) (by omega) (by split_ifs <;> omega) (by omega)
       | eof =>
         simp only
         obtain ⟨t1, t2⟩ := s2 (by intro h; cases h)
-        exact ⟨by simp only; omega, (fun h => by cases h), fun _ => ⟨finSt_err_irrel t1 rfl, t2, rfl⟩⟩
+        have hpe := startChunk_eof_pos r2 (by rw [hsc])
+        rw [hsc] at hpe
+        exact ⟨by simp only; omega, (fun _ => by show p0 ≤ r3.srcPos; simp only at hpe; omega), (fun h => by cases h),
+          fun _ => ⟨finSt_err_irrel t1 rfl, t2, rfl⟩⟩
       | err e =>
         simp only
         obtain ⟨t1, t2⟩ := s2 (by intro h; cases h)
-        exact ⟨by simp only; omega, (fun h => by cases h), fun _ => ⟨finSt_err_irrel t1 rfl, t2, rfl⟩⟩
+        exact ⟨by simp only; omega, (fun h => by rcases h with h | h <;> cases h), (fun h => by cases h),
+          fun _ => ⟨finSt_err_irrel t1 rfl, t2, rfl⟩⟩
     | err e =>
       simp only
       obtain ⟨e1, e2⟩ := p5 e rfl
       rw [hasm] at e1 e2
-      exact ⟨by simp only; omega, (fun h => by cases h), fun _ => ⟨finSt_err_irrel e1 rfl, e2, rfl⟩⟩
+      exact ⟨by simp only; omega, (fun h => by rcases h with h | h <;> cases h), (fun h => by cases h),
+        fun _ => ⟨finSt_err_irrel e1 rfl, e2, rfl⟩⟩
 
 /-! ### the batch output only grows -/
 
@@ -1286,13 +1335,14 @@ theorem C2.pre {r : R2} {D : ByteArray} (hc : C2 cap inp off B r D) : FinPre off
     rw [length_toList, ByteArray.size_append]; omega
 
 theorem read2_spec (hcap : 274 ≤ cap) {r : R2} {D : ByteArray} (hc : C2 cap inp off B r D) (he : r.err = none)
-    (len : Nat) : R2Post cap inp off B len D (read r len) := by
+    (len : Nat) : R2Post cap inp off B r.srcPos len D (read r len) := by
   unfold read
   rw [he]
   simp only
   have hi := hc.inp_eq
   have hE : D ++ ByteArray.empty = D := ByteArray.append_empty
-  apply readLoop2_spec hcap len D _ r ByteArray.empty (by rw [hE]; exact hc) he (Nat.zero_le _)
+  refine readLoop2_spec hcap r.srcPos len D _ r ByteArray.empty (by rw [hE]; exact hc) he (Nat.zero_le _) ?_
+    (Nat.le_refl _)
   have : ByteArray.empty.size = 0 := rfl
   rw [hi]
   split_ifs <;> omega
@@ -1314,8 +1364,9 @@ theorem init_spec (cfgCap : Nat) (inp : ByteArray) (pos0 : Nat) (out0 : ByteArra
     let cap := if cfgCap = 0 then 8 * 1024 * 1024 else cfgCap
     let B := Lzma2.decode false cap inp pos0 out0
     let r := newReader2At cfgCap inp pos0
-    (r.err = none ∧ C2 cap inp out0.size B r ByteArray.empty) ∨
-    (∃ st, r.err = some st ∧ st ≠ .ok ∧ FinSt out0.size B ByteArray.empty r st ∧ FinPre out0.size B ByteArray.empty) := by
+    (r.err = none ∧ C2 cap inp out0.size B r ByteArray.empty ∧ pos0 ≤ r.srcPos) ∨
+    (∃ st, r.err = some st ∧ st ≠ .ok ∧ FinSt out0.size B ByteArray.empty r st ∧ FinPre out0.size B ByteArray.empty ∧
+      (st = .eof → pos0 ≤ r.srcPos)) := by
   intro cap B r
   have hpos : 1 ≤ cap := by
     show 1 ≤ (if cfgCap = 0 then 8 * 1024 * 1024 else cfgCap)
@@ -1348,18 +1399,20 @@ theorem init_spec (cfgCap : Nat) (inp : ByteArray) (pos0 : Nat) (out0 : ByteArra
   | ok =>
     simp only at hr
     subst hr
-    obtain ⟨t1, t2, _, _⟩ := s1 rfl
-    exact Or.inl ⟨t2, t1⟩
+    obtain ⟨t1, t2, t3, _⟩ := s1 rfl
+    exact Or.inl ⟨t2, t1, by have : (r2Init cap inp pos0).pos = pos0 := rfl; simp only at t3; omega⟩
   | eof =>
     simp only at hr
     subst hr
     obtain ⟨t1, t2⟩ := s2 (by intro h; cases h)
-    exact Or.inr ⟨_, rfl, (by intro h; cases h), finSt_err_irrel t1 rfl, t2⟩
+    have hpe := startChunk_eof_pos (r2Init cap inp pos0) (by rw [hsc])
+    rw [hsc] at hpe
+    exact Or.inr ⟨_, rfl, (by intro h; cases h), finSt_err_irrel t1 rfl, t2, fun _ => hpe⟩
   | err e =>
     simp only at hr
     subst hr
     obtain ⟨t1, t2⟩ := s2 (by intro h; cases h)
-    exact Or.inr ⟨_, rfl, (by intro h; cases h), finSt_err_irrel t1 rfl, t2⟩
+    exact Or.inr ⟨_, rfl, (by intro h; cases h), finSt_err_irrel t1 rfl, t2, (fun h => by cases h)⟩
 
 /-! ### schedules -/
 
@@ -1420,7 +1473,7 @@ theorem readSeq2_spec (hcap : 274 ≤ cap) : ∀ (lens : List Nat) (r : R2) (D :
     rw [readSeq]
     rcases hrd : read r len with ⟨r', out, st⟩
     rw [hrd] at hr
-    obtain ⟨q1, q2, q3⟩ := hr
+    obtain ⟨q1, _, q2, q3⟩ := hr
     simp only at q1 q2 q3 ⊢
     cases st with
     | ok =>
@@ -1471,7 +1524,7 @@ theorem schedule2_spec (cfgCap : Nat) (hcap : 4096 ≤ effCap cfgCap) (inp : Byt
       (readSeq (newReader2At cfgCap inp pos0) lens) := by
   have hc : 274 ≤ (if cfgCap = 0 then 8 * 1024 * 1024 else cfgCap) := by
     unfold effCap at hcap; omega
-  rcases init_spec cfgCap inp pos0 out0 with ⟨h1, h2⟩ | ⟨st, h1, h2, h3, h4⟩
+  rcases init_spec cfgCap inp pos0 out0 with ⟨h1, h2, _⟩ | ⟨st, h1, h2, h3, h4, _⟩
   · exact readSeq2_spec hc lens _ _ h2 h1
   · cases lens with
     | nil =>
